@@ -3,12 +3,43 @@
     group chain, translated from periodic_table.py), Gen/Srd144.v (raw NIST JSON strings + the
     hand-kept data of build_periodic_table.py).  [observe_spec x] is the record of everything the public
     accessors answer for identifier x (resolved key, to_Z/to_E/to_element strict and not, to_A,
-    to_mass as Decimal, to_period, to_group).  Strings are ASCII ([PyAscii]). *)
+    to_mass as Decimal, to_period, to_group).  Strings are ASCII ([PyAscii]).
+
+    CLAUSE MAP (statement of C01 in properties.jsonl, clause -> theorems; "gen" = stated on / proved equal to the functions
+    of Gen/PTGlue.v, which harness/translate/ptglue.py regenerates from periodic_table.py on every run)
+    (a) every accepted way of naming a species (int Z, digit string, symbol, name, nuclide label; any letter case) resolves to
+        the same species:  C01_case_insensitive (all strings), C01_alias_invariance + C01_alias_invariance_every_accessor
+        (every row x every accessor incl. Decimal / float / raw-string mass, period, group, strict on/off),
+        C01_public_entry_points_alias_invariant (the same on the generated entry points), C01_nuclide_labels_resolve +
+        C01_nuclide_alias_every_accessor (labels, every accessor, element-level answers = those of the bare element),
+        C01_int_of_str_roundtrip, C01_digit_string_is_int (digit string of ANY integer).
+    (b) Z, symbol, name, A, mass (float and Decimal) are exactly NIST SRD-144's:  C01_faithful_isotopes,
+        C01_faithful_isotopes_float, C01_float_is_rounded_decimal, C01_float_mass_is_nearest_double,
+        C01_float_mass_from_shipped_string (+ C01_rne_nearest_even, C01_nearest_double_correct, C01_float_of_string_agrees,
+        C01_float_models_agree, C01_decimal_reading_agrees), C01_only_srd_species, C01_element_columns_exact,
+        C01_dummy_rows_as_seeded.
+    (c) bare element = most abundant, else longest-lived isotope:  C01_faithful_bare_element,
+        C01_faithful_bare_element_all_aliases (every alias form and case, float included), C01_default_isotope_rule.
+    (d) period / group = position in the 18-column table:  C01_period_group_standard, C01_ladder_is_reference,
+        C01_dummy_period_group (Z = 0: pinned behaviour).
+    (e) strict mode accepts exactly the element-level names, rejects nuclide labels:  C01_strict_exact,
+        C01_strict_rejects_nuclides, C01_public_strict_exact (gen).
+    (f) a name that denotes no tabulated species raises NotAnElementError:  C01_resolve_sound, C01_resolve_rejects,
+        C01_resolve_accepts_iff, C01_unnamed_rejected_by_every_accessor (model and gen entry points, every option),
+        instances C01_int_outside_rejected, C01_str_outside_rejected, C01_lettered_unnamed_rejected (unknown symbols/words),
+        C01_absent_mass_number_rejected, C01_mass_number_in_front_rejected, C01_decimal_strings_rejected;  C01_fails_closed.
+    (g) the 9 accessors and their to_atomic_number/... aliases ARE the model:  C01_generated_glue_is_model,
+        C01_generated_init_and_names (gen = hand model for all identifiers; alias names are plain rebindings; all keyword
+        defaults are False), C01_observe_is_accessors.
+    Only correspondence / oracle (no theorem can state it: the model is a pure function): answers do not depend on EARLIER
+    calls on the same table object (history streams of harness/props/c01.py); float/bool/non-ASCII identifiers. *)
 From Coq Require Import ZArith List String Ascii Bool.
 Require Import QV.Common.Outcome QV.Common.PyAscii QV.Common.PyAsciiIntStr QV.Common.NearestDouble QV.Common.NearestDoubleNorm.
 Require Import QV.Gen.PTable QV.Gen.PeriodGroup QV.Gen.Srd144 QV.Model.PeriodicTable QV.Model.PeriodicTableFloat.
+Require Import QV.Model.PeriodicTableGlue QV.Gen.PTGlue.
 Require Import QV.Proofs.PeriodicTableF1 QV.Proofs.PeriodicTableF2 QV.Proofs.PeriodicTableF3 QV.Proofs.PeriodicTable
-               QV.Proofs.PeriodicTableReject QV.Proofs.PeriodicTableMore QV.Proofs.PeriodicTableFloatStr QV.Proofs.PeriodicTableWave2.
+               QV.Proofs.PeriodicTableReject QV.Proofs.PeriodicTableMore QV.Proofs.PeriodicTableFloatStr QV.Proofs.PeriodicTableWave2
+               QV.Proofs.PeriodicTableWave3 QV.Proofs.PeriodicTableGlue.
 Import ListNotations.
 Open Scope Z_scope.
 
@@ -246,7 +277,139 @@ Proof. exact observe_eq. Qed.
 Theorem C01_decimal_reading_agrees : map dec_of_string pt_mass_str = map Some pt_mass.
 Proof. exact decimal_reading_agrees. Qed.
 
+(* ------------------------------------------------------------------------------------------ *)
+(** Wave 3. *)
+
+(** The public entry points, as TRANSLATED from periodic_table.py on this run (Gen/PTGlue.v: the try/except cascade, the
+    strict filter, every accessor body), are the hand-written model — for ALL identifiers and options.  to_mass returns a
+    Decimal or a float depending on return_decimal ([GDec] / [GFlt]). *)
+Theorem C01_generated_glue_is_model :
+  forall x b,
+    g_resolve_eliso x = resolve_eliso x /\ g_resolve_atom_to_key x b = resolve x b /\
+    g_to_Z x b = to_Z x b /\ g_to_E x b = to_E x b /\ g_to_element x b = to_element x b /\ g_to_A x = to_A x /\
+    g_to_mass x true = omap GDec (to_mass_dec x) /\ g_to_mass x false = omap GFlt (to_mass_float_str x).
+Proof.
+  intros x b. split; [apply g_resolve_eliso_eq|]. split; [apply g_resolve_eq|]. split; [apply g_to_Z_eq|].
+  split; [apply g_to_E_eq|]. split; [apply g_to_element_eq|]. split; [apply g_to_A_eq|]. apply g_to_mass_eq.
+Qed.
+
+(** __init__ as translated: every attribute is the shipped array of the same name, the seven index dictionaries zip the
+    arrays the model says; the documented alias names are class-level rebindings of the four accessors; every keyword
+    (strict, return_decimal) defaults to False. *)
+Theorem C01_generated_init_and_names :
+  (g_el2z = el2z /\ g_z2el = z2el /\ g_element2el = element2el /\ g_el2element = el2element /\
+   g_eliso2mass = eliso2mass /\ g_eliso2el = eliso2el /\ g_eliso2a = eliso2a) /\
+  g_aliases = [("to_atomic_number", "to_Z"); ("to_mass_number", "to_A"); ("to_name", "to_element"); ("to_symbol", "to_E")]%string /\
+  forallb (fun r => negb (snd r)) g_defaults = true /\
+  forallb (fun kv => String.eqb (fst kv) (snd kv)) g_attrs = true /\ List.length g_attrs = 7%nat.
+Proof.
+  split; [exact g_dicts_eq|]. split; [exact g_aliases_documented|]. split; [exact g_defaults_false|]. exact g_attrs_identity.
+Qed.
+
+(** Alias invariance through EVERY accessor: for each element row, the digit string, symbol and name in any letter case
+    answer exactly as the integer Z does — to_Z/to_E/to_element (strict or not) give the row itself, and mass number,
+    Decimal mass, shipped mass string, float mass, period and group coincide and exist. *)
+Theorem C01_alias_invariance_every_accessor :
+  forall z e n s b,
+    In (z, e, n) elem_rows ->
+    same_mod_case s (str_of_Z z) \/ same_mod_case s e \/ same_mod_case s n ->
+    observe_full (PStr s) = observe_full (PInt z) /\
+    to_Z (PStr s) b = Ok z /\ to_E (PStr s) b = Ok e /\ to_element (PStr s) b = Ok n /\
+    to_Z (PInt z) b = Ok z /\ to_E (PInt z) b = Ok e /\ to_element (PInt z) b = Ok n /\
+    (exists a m ms f, to_A (PStr s) = Ok a /\ to_A (PInt z) = Ok a /\
+                      to_mass_dec (PStr s) = Ok m /\ to_mass_dec (PInt z) = Ok m /\
+                      to_mass_str (PStr s) = Ok ms /\ to_mass_str (PInt z) = Ok ms /\
+                      to_mass_float_str (PStr s) = Ok f /\ to_mass_float_str (PInt z) = Ok f) /\
+    to_period (PStr s) = Ok (gen_period z) /\ to_period (PInt z) = Ok (gen_period z) /\
+    to_group (PStr s) = Ok (gen_group z) /\ to_group (PInt z) = Ok (gen_group z).
+Proof. exact alias_every_accessor. Qed.
+
+(** ... the same on the generated public entry points (to_mass for both values of return_decimal). *)
+Theorem C01_public_entry_points_alias_invariant :
+  forall z e n s b,
+    In (z, e, n) elem_rows ->
+    same_mod_case s (str_of_Z z) \/ same_mod_case s e \/ same_mod_case s n ->
+    g_to_Z (PStr s) b = Ok z /\ g_to_Z (PInt z) b = Ok z /\ g_to_E (PStr s) b = Ok e /\ g_to_E (PInt z) b = Ok e /\
+    g_to_element (PStr s) b = Ok n /\ g_to_element (PInt z) b = Ok n /\
+    g_to_A (PStr s) = g_to_A (PInt z) /\ is_ok (g_to_A (PInt z)) = true /\
+    (forall rd, g_to_mass (PStr s) rd = g_to_mass (PInt z) rd /\ is_ok (g_to_mass (PInt z) rd) = true).
+Proof. exact g_alias_invariant. Qed.
+
+(** Nuclide labels, any letter case, every accessor: the answers are those for the label as tabulated, and the
+    element-level ones (Z, name, period, group) are those of the bare symbol of its element; nothing raises. *)
+Theorem C01_nuclide_alias_every_accessor :
+  forall ea s, In ea pt_EA -> same_mod_case s ea ->
+    observe_full (PStr s) = observe_full (PStr ea) /\
+    exists e, In e pt_E /\ to_E (PStr s) false = Ok e /\
+              to_Z (PStr s) false = to_Z (PStr e) false /\ to_element (PStr s) false = to_element (PStr e) false /\
+              to_period (PStr s) = to_period (PStr e) /\ to_group (PStr s) = to_group (PStr e) /\
+              is_ok (to_Z (PStr s) false) = true /\ is_ok (to_A (PStr s)) = true /\ is_ok (to_mass_dec (PStr s)) = true /\
+              is_ok (to_mass_float_str (PStr s)) = true.
+Proof. exact label_every_accessor. Qed.
+
+(** An identifier that names nothing gets NotAnElementError from EVERY accessor, strict or not — on the model and on the
+    generated entry points. *)
+Theorem C01_unnamed_rejected_by_every_accessor :
+  forall x, (forall k, ~ justified x k) ->
+    forall b,
+      (resolve x b = Err NotAnElement /\ to_Z x b = Err NotAnElement /\ to_E x b = Err NotAnElement /\
+       to_element x b = Err NotAnElement /\ to_A x = Err NotAnElement /\ to_mass_dec x = Err NotAnElement /\
+       to_mass_str x = Err NotAnElement /\ to_mass_float_str x = Err NotAnElement /\
+       to_period x = Err NotAnElement /\ to_group x = Err NotAnElement) /\
+      (g_resolve_atom_to_key x b = Err NotAnElement /\ g_to_Z x b = Err NotAnElement /\ g_to_E x b = Err NotAnElement /\
+       g_to_element x b = Err NotAnElement /\ g_to_A x = Err NotAnElement /\ g_to_mass x b = Err NotAnElement).
+Proof. intros x H b. split; [now apply unnamed_rejected_everywhere|now apply g_unnamed_rejected]. Qed.
+
+Theorem C01_public_strict_exact :
+  forall x k, g_resolve_atom_to_key x true = Ok k <-> g_resolve_atom_to_key x false = Ok k /\ In k pt_E.
+Proof. exact g_strict_exact. Qed.
+
+(** Unknown symbols and words: ANY text containing a letter whose capitalised spelling is neither a tabulated label nor an
+    element name; and absent mass numbers / malformed labels: ANY text with a letter and a digit whose capitalised
+    spelling is not a tabulated label ("kr200", "H8", "he0", "x1", "og294"). *)
+Theorem C01_lettered_unnamed_rejected :
+  forall s b, existsb is_letter (chars s) = true -> ~ In (capitalize s) pt_EA -> ~ In (capitalize s) pt_name ->
+              resolve (PStr s) b = Err NotAnElement.
+Proof. exact lettered_unnamed_rejected. Qed.
+
+Theorem C01_absent_mass_number_rejected :
+  forall s b, existsb is_letter (chars s) = true -> has_digit s = true -> ~ In (capitalize s) pt_EA ->
+              resolve (PStr s) b = Err NotAnElement.
+Proof. exact absent_mass_number_rejected. Qed.
+
+(** Bare element under EVERY alias form and letter case (and as an integer): NIST's Z, symbol, name (strictly too), and
+    the mass number, Decimal mass and float mass of the default isotope. *)
+Theorem C01_faithful_bare_element_all_aliases :
+  forall e s, In e srd_elements ->
+    exists z name i a m,
+      e_Z e = Some z /\ e_name e = Some name /\ default_iso e = Some i /\ i_A i = Some a /\ i_mass i = Some m /\
+      (same_mod_case s (str_of_Z z) \/ same_mod_case s (e_sym e) \/ same_mod_case s name ->
+       (forall b, resolve (PStr s) b = Ok (e_sym e) /\ to_Z (PStr s) b = Ok z /\ to_E (PStr s) b = Ok (e_sym e) /\
+                  to_element (PStr s) b = Ok name) /\
+       to_A (PStr s) = Ok a /\ to_mass_dec (PStr s) = Ok m /\ to_mass_float_str (PStr s) = Ok (nearest_double m) /\
+       to_A (PInt z) = Ok a /\ to_mass_dec (PInt z) = Ok m /\ to_mass_float_str (PInt z) = Ok (nearest_double m)).
+Proof. intros e s H. exact (element_faithful_all_aliases e s H). Qed.
+
+(** The float mass is the Decimal mass correctly rounded, for ALL identifiers; hence for every NIST isotope, under every
+    name and letter case, it is the binary64 nearest to NIST's relative atomic mass. *)
+Theorem C01_float_is_rounded_decimal :
+  forall x, to_mass_float_str x = obind (to_mass_dec x) (fun d => Ok (nearest_double d)).
+Proof. exact float_is_rounded_decimal. Qed.
+
+Theorem C01_faithful_isotopes_float :
+  forall e i lbl s,
+    In e srd_elements -> In i (e_isos e) -> In lbl (i_labels (e_sym e) i) -> same_mod_case s lbl ->
+    exists m, i_mass i = Some m /\ to_mass_dec (PStr s) = Ok m /\ to_mass_float_str (PStr s) = Ok (nearest_double m).
+Proof. exact isotope_float_faithful. Qed.
+
 (** Non-vacuity. *)
+Example C01_ex_wave3 :
+  g_to_Z (PStr "kr84") false = Ok 36 /\ g_to_Z (PStr "kr84") true = Err NotAnElement /\
+  g_to_mass (PStr "d") true = Ok (GDec (201410177812, -11)) /\ g_to_mass (PInt 1) false = Ok (GFlt (4538840439605686, -52)) /\
+  g_to_A (PInt (-1)) = Err NotAnElement /\ g_resolve_eliso (PInt 36) = Ok "Kr"%string /\
+  existsb is_letter (chars "kr200") = true /\ has_digit "kr200" = true /\ resolve (PStr "kr200") false = Err NotAnElement /\
+  resolve (PStr "zz") false = Err NotAnElement /\ to_period (PStr "36") = Ok (gen_period 36).
+Proof. vm_compute. repeat split. Qed.
 Example C01_ex_case : same_mod_case "kR84" "Kr84" /\ same_mod_case "TENNESSINE" "Tennessine"
                       /\ ~ same_mod_case "Kr84" "Kr48".
 Proof. repeat split; try reflexivity. intro H; vm_compute in H; discriminate. Qed.
@@ -319,3 +482,15 @@ Print Assumptions C01_float_mass_from_shipped_string.
 Print Assumptions C01_fails_closed.
 Print Assumptions C01_observe_is_accessors.
 Print Assumptions C01_decimal_reading_agrees.
+Print Assumptions C01_generated_glue_is_model.
+Print Assumptions C01_generated_init_and_names.
+Print Assumptions C01_alias_invariance_every_accessor.
+Print Assumptions C01_public_entry_points_alias_invariant.
+Print Assumptions C01_nuclide_alias_every_accessor.
+Print Assumptions C01_unnamed_rejected_by_every_accessor.
+Print Assumptions C01_public_strict_exact.
+Print Assumptions C01_lettered_unnamed_rejected.
+Print Assumptions C01_absent_mass_number_rejected.
+Print Assumptions C01_faithful_bare_element_all_aliases.
+Print Assumptions C01_float_is_rounded_decimal.
+Print Assumptions C01_faithful_isotopes_float.
